@@ -152,4 +152,95 @@ def gen_str() -> str:
     return "\n".join(out)
 
 
-GENERATORS = {"Str": gen_str}
+# ------------------------------------------------------------------------------------------------
+# Gen/Lex.lean: the syntax trees Python's own regex parser builds for the literal terminals
+# ------------------------------------------------------------------------------------------------
+
+LEX_TERMINALS = ("BYTES_LIT", "FLOAT_LIT", "INT_LIT", "MLSTRING_LIT", "STRING_LIT", "UINT_LIT")
+
+
+def _set_items(items) -> str:
+    from re import _constants as C
+    rs = []
+    for op, av in items:
+        if op is C.LITERAL:
+            rs.append((av, av))
+        elif op is C.RANGE:
+            rs.append((av[0], av[1]))
+        elif op is C.CATEGORY and av is C.CATEGORY_DIGIT:
+            rs.append((48, 57))          # `\d`, read as [0-9] (see Cel.Model.Lex)
+        else:
+            raise TranslationError(f"character set item {op} {av!r} is outside the modelled regex subset")
+    return "[" + ", ".join(f"({a}, {b})" for a, b in rs) + "]"
+
+
+def _re_item(op, av) -> str:
+    from re import _constants as C
+    if op is C.LITERAL:
+        return f"lit {av}"
+    if op is C.IN:
+        return "set " + _set_items(av)
+    if op is C.ANY:
+        return "dot"
+    if op is C.BRANCH:
+        return "alts [" + ", ".join(_re_seq(b) for b in av[1]) + "]"
+    if op is C.SUBPATTERN:
+        group, add_flags, del_flags, sub = av
+        if add_flags or del_flags:
+            raise TranslationError("inline flags in a terminal regex")
+        return _re_seq(sub)              # groups are not referred to: capturing or not makes no difference to the match
+    if op in (C.MAX_REPEAT, C.MIN_REPEAT):
+        lo, hi, sub = av
+        greedy = op is C.MAX_REPEAT
+        body = _re_seq(sub)
+        inf = hi is C.MAXREPEAT
+        if greedy and (lo, hi) == (0, 1):
+            return f"opt ({body})"
+        if greedy and lo == 0 and inf:
+            return f"many ({body})"
+        if greedy and lo == 1 and inf:
+            return f"plus ({body})"
+        if not greedy and lo == 0 and inf:
+            return f"manyLazy ({body})"
+        if lo == hi and 1 <= lo <= 16:
+            return f"rep {lo} ({body})"   # greedy and lazy coincide for a fixed count
+        raise TranslationError(f"repetition {{{lo},{hi}}}{'' if greedy else '?'} is outside the modelled regex subset")
+    raise TranslationError(f"regex construct {op} is outside the modelled subset")
+
+
+def _re_seq(sub) -> str:
+    items = [_re_item(op, av) for op, av in sub]
+    if len(items) == 1:
+        return items[0]
+    return "seqs [" + ", ".join(items) + "]"
+
+
+def re_to_lean(regex: str) -> str:
+    """`re._parser.parse(regex)` (the tree `re.compile` itself compiles) as a `Cel.Lex.Re` term"""
+    from re import _parser
+    try:
+        tree = _parser.parse(regex)
+    except Exception as ex:
+        raise TranslationError(f"terminal regex does not parse: {ex}")
+    if tree.state.flags & ~__import__("re").UNICODE:
+        raise TranslationError("terminal regex sets flags")
+    return _re_seq(tree)
+
+
+def gen_lex() -> str:
+    terms = dict(lit_terminals())
+    out = [HEADER.format(src="src/celpy/cel.lark (*_LIT terminals, parsed by Python's re._parser)"),
+           "import Cel.Model.Lex\nnamespace Cel.Gen.Lex\nopen Cel.Lex\n"]
+    names = []
+    for n in LEX_TERMINALS:
+        if n not in terms:
+            raise TranslationError(f"cel.lark has no terminal {n}")
+        out.append(f"/-- {n} -/")
+        out.append(f"def t_{n} : Re := {re_to_lean(terms[n])}")
+        names.append(f"({lean_str(n)}, t_{n})")
+    out.append("def terminals : List (String × Re) := " + lean_list(names))
+    out.append("\nend Cel.Gen.Lex\n")
+    return "\n".join(out)
+
+
+GENERATORS = {"Str": gen_str, "Lex": gen_lex}
